@@ -66,3 +66,230 @@ Qed.
 
 Theorem inv_reach s : Reach current s -> Inv s.
 Proof. induction 1; [apply inv_init | eapply inv_step; eauto]. Qed.
+
+Lemma ev_lt s e : Inv s -> epush s e = 1 \/ epop s e = 1 -> e < nexte s.
+Proof. intros I H. destruct (le_lt_dec (nexte s) e) as [L|L]; [|exact L]. destruct (E_new _ I e L). lia. Qed.
+Lemma arm_lt s a : Inv s -> pc s a <> ANone -> a < nexta s.
+Proof. intros I H. destruct (le_lt_dec (nexta s) a) as [L|L]; [|exact L]. apply (A_ex _ I) in L. contradiction. Qed.
+
+(* ------------------------------------------------------------------------------------------------------------
+   (i) every event is consumed at most once, only after it was pushed; its bottom half runs exactly when it is
+       consumed, after its own top half, never twice, never without the top half *)
+
+(* an event is pushed at most once and popped at most once, and only after it was pushed *)
+Theorem event_consumed_at_most_once s : Reach current s -> forall e, epop s e <= epush s e /\ epush s e <= 1.
+Proof.
+  intros R e. destruct (E_cnt _ (inv_reach _ R) e) as [A B]. split; [exact A|]. destruct (kpost (kpc s e)); lia.
+Qed.
+
+(* the queue holds exactly the events pushed and not yet popped, each once (the entry that the re-check pop holds while
+   to_wake.take runs counts as queued) *)
+Theorem queue_is_pushed_minus_popped s : Reach current s ->
+  NoDup (qall s) /\ (forall e, In (ENormal e) (qall s) <-> (epush s e = 1 /\ epop s e = 0))
+  /\ (forall a, In (EDone a) (qall s) <-> (dpush s a = 1 /\ dpop s a = 0)).
+Proof. intros R. pose proof (inv_reach _ R) as I. split; [apply (Q_nd _ I)|]. split; [apply (Q_norm _ I) | apply (Q_done _ I)]. Qed.
+
+(* per arm: bottom halves started <= events created <= top halves completed <= bottom halves started + 1 *)
+Theorem bottom_never_before_or_without_top s : Reach current s ->
+  forall a, bots s a <= sent s a /\ sent s a <= tops s a /\ tops s a <= S (bots s a).
+Proof. intros R a. pose proof (A_ctr _ (inv_reach _ R) a) as C. destruct (pc s a); cbn [ctr] in C; lia. Qed.
+
+(* an event that is not consumed yet: its coroutine is suspended IN THAT EVENT (so its bottom half has not run:
+   bots < its round); a consumed event: its bottom half has been started (bots >= its round) *)
+Theorem bottom_half_iff_consumed s : Reach current s -> forall e, e < nexte s ->
+  1 <= ernd s e /\ ernd s e <= tops s (earm s e) /\
+  (epop s e = 0 -> pc s (earm s e) = ASusp /\ acur s (earm s e) = e /\ bots s (earm s e) < ernd s e) /\
+  (epop s e = 1 -> ernd s e <= bots s (earm s e)).
+Proof.
+  intros R e L. pose proof (inv_reach _ R) as I. destruct (E_arm _ I e L) as (LA & R1 & R2).
+  split; [exact R1|]. split; [exact R2|]. split.
+  - intros P. destruct (E_pop0 _ I e L P) as [X Y]. split; [exact X|]. split; [exact Y|].
+    destruct (A_susp _ I _ X) as (_ & _ & _ & S4). rewrite Y in S4. pose proof (A_ctr _ I (earm s e)) as C. rewrite X in C. cbn [ctr] in C. lia.
+  - apply (E_pop1 _ I).
+Qed.
+
+(* the transition that consumes an event is the transition that starts its bottom half (run_coroutine inside
+   continue_bottom), and the bottom half started is the one of THAT event's round; no other transition starts one *)
+Theorem consume_starts_bottom s ac s' e : Reach current s -> step current s ac = Some s' -> epop s' e = S (epop s e) ->
+  ac = OStep /\ epop s e = 0 /\ epush s e = 1 /\ pc s (earm s e) = ASusp /\ pc s' (earm s e) = ABot /\
+  bots s' (earm s e) = S (bots s (earm s e)) /\ bots s' (earm s e) = ernd s e /\ opc s' = PRun /\ ocur s' = earm s e /\ oev s' = e.
+Proof.
+  intros R H P. pose proof (inv_reach _ R) as I. pose proof (A_susp _ I) as QS. pose proof (A_ctr _ I) as QC. start I H.
+  all: simp; try lia.
+  all: upds; simp; try lia.
+  all: match goal with HN : pc ?s (earm ?s ?e) = ASusp, HC : acur ?s (earm ?s ?e) = ?e |- _ =>
+         destruct (QS _ HN) as (S1 & S2 & S3 & S4); rewrite HC in S4; pose proof (QC (earm s e)) as S5; rewrite HN in S5; cbn [ctr] in S5 end.
+  all: repeat split; fin.
+Qed.
+Theorem bottom_starts_only_at_consumption s ac s' a : Reach current s -> step current s ac = Some s' -> bots s' a <> bots s a ->
+  exists e, earm s e = a /\ epop s' e = S (epop s e) /\ bots s' a = S (bots s a).
+Proof.
+  intros R H P. pose proof (inv_reach _ R) as I. start I H.
+  all: simp; try congruence.
+  all: upds; simp; try congruence.
+  all: match goal with HN : pc ?s (earm ?s ?e) = ASusp |- _ => exists e; rewrite ?Nat.eqb_refl; repeat split; fin end.
+Qed.
+
+(* when poll returns Ok(ev) the bottom half of ev HAS run, exactly once: it was started at the consumption and it has
+   finished, unless it blocked on something else (then the arm continues on a worker) *)
+Theorem poll_ok_bottom_has_run s : Reach current s -> returns_ok s ->
+  earm s (oev s) = ocur s /\ epush s (oev s) = 1 /\ epop s (oev s) = 1 /\
+  1 <= ernd s (oev s) /\ bots s (ocur s) = ernd s (oev s) /\ ernd s (oev s) <= tops s (ocur s) /\
+  (botd s (ocur s) = bots s (ocur s) \/ byield s (ocur s) = true).
+Proof.
+  intros R [E N]. pose proof (inv_reach _ R) as I. destruct (R_run _ I E) as (Q1 & Q2 & Q3 & Q4).
+  pose proof (ev_lt s (oev s) I (or_intror Q2)) as L. destruct (E_arm _ I _ L) as (LA & R1 & R2).
+  destruct (E_cnt _ I (oev s)) as [C1 C2].
+  repeat split; auto; try (destruct (kpost (kpc s (oev s))); lia). rewrite <- Q1. exact R2.
+Qed.
+
+(* ------------------------------------------------------------------------------------------------------------
+   (ii) Finished only when every select coroutine has ended and everything was consumed; Timeout only at / after the
+        deadline *)
+Theorem finished_only_when_all_ended s : Reach current s -> returns_finished s ->
+  all_gone s /\ evq s = [] /\
+  (forall a, a < nexta s -> pc s a = ADone /\ dpush s a = 1 /\ dpop s a = 1) /\
+  (forall e, e < nexte s -> epush s e = 1 /\ epop s e = 1).
+Proof.
+  intros R (E & Q & A). pose proof (inv_reach _ R) as I. destruct (finished_all_gone s I E Q A) as (QA & QE & QQ).
+  split; [split|].
+  - intros a L. destruct (QA a L) as [X _]. rewrite (A_jst _ I), X. reflexivity.
+  - intros e L. apply (QE e L).
+  - split; [exact QQ|]. split.
+    + intros a L. destruct (QA a L) as [X Y]. split; [exact X|]. split; [|exact Y]. destruct (A_dp _ I a) as [P _]. rewrite X in P. exact P.
+    + intros e L. destruct (QE e L) as [X Y]. split; [|exact Y]. destruct (E_cnt _ I e) as [_ P]. rewrite X in P. exact P.
+Qed.
+
+Theorem timeout_only_after_deadline s : Reach current s -> returns_timeout s -> ofin s = 0 ->
+  exists d, oto s = Some d /\ (ocall s + d <= now s)%Z /\ (ocall s <= now s)%Z.
+Proof.
+  intros R [E T] F. pose proof (T_dl _ (inv_reach _ R)) as Q. rewrite E, F in Q. destruct (Q eq_refl) as [D C].
+  rewrite D in T. destruct (oto s) as [d|]; cbn in T; [|discriminate]. exists d. apply Z.leb_le in T. auto.
+Qed.
+(* the final drain never times out *)
+Theorem drain_never_times_out s : Reach current s -> ofin s <> 0 -> returns_timeout s -> False.
+Proof.
+  intros R F [E T]. pose proof (T_dl _ (inv_reach _ R)) as Q. rewrite E in Q. destruct (ofin s); [congruence|].
+  destruct (Q eq_refl) as [D _]. rewrite D in T. discriminate.
+Qed.
+
+(* ------------------------------------------------------------------------------------------------------------
+   (iii) no lost wake-up of the poller, quiescence form *)
+(* nothing inside the cqueue has an enabled transition: no kernel half in flight, no arm inside send / EventSender::drop
+   (arms in client code - top or bottom half -, suspended in an event or done are quiescent) *)
+Definition quiescent (s : st) : Prop :=
+  (forall e, e < nexte s -> kpc s e = KDone) /\
+  (forall a, a < nexta s -> pc s a = ATop \/ pc s a = ABot \/ pc s a = ASusp \/ pc s a = ADone).
+Definition parked (s : st) : Prop := opc s = P5 \/ opc s = P5w.
+
+Theorem no_lost_wakeup s : Reach current s -> quiescent s -> parked s -> (evq s <> [] \/ cnt s = 0%Z) -> tok s (ob s) = true.
+Proof.
+  intros R [QK QA] P C. pose proof (inv_reach _ R) as I.
+  assert (NE : evq s <> []).
+  { destruct C as [C|C]; [exact C|]. assert (J : jset s = true) by (unfold jset; destruct P as [-> | ->]; reflexivity).
+    destruct (J_live _ I J) as [X|X]; [contradiction | exact X]. }
+  assert (NT : towake s <> Some (ob s)).
+  { intros T. assert (S : sleepset (opc s) = true) by (destruct P as [-> | ->]; reflexivity).
+    destruct (W_q _ I S T NE) as [[e K]|[a K]].
+    - assert (L : e < nexte s). { destruct (le_lt_dec (nexte s) e) as [L|L]; [|exact L]. apply (E_ex _ I) in L. congruence. }
+      rewrite (QK e L) in K. discriminate.
+    - assert (L : a < nexta s) by (apply (arm_lt s a I); destruct K as [K|K]; rewrite K; discriminate).
+      destruct (QA a L) as [X|[X|[X|X]]]; rewrite X in K; destruct K; discriminate. }
+  assert (W : waitset (opc s) = true) by (destruct P as [-> | ->]; reflexivity).
+  destruct (W_tok _ I W) as [X|[X|[[e [K _]]|[a [K _]]]]]; [exact X | contradiction | |].
+  - assert (L : e < nexte s). { destruct (le_lt_dec (nexte s) e) as [L|L]; [|exact L]. apply (E_ex _ I) in L. congruence. }
+    rewrite (QK e L) in K. discriminate.
+  - assert (L : a < nexta s) by (apply (arm_lt s a I); rewrite K; discriminate).
+    destruct (QA a L) as [X|[X|[X|X]]]; rewrite X in K; discriminate.
+Qed.
+(* ... hence the parked poller has an enabled resumption *)
+Corollary no_lost_wakeup_enabled s : Reach current s -> quiescent s -> opc s = P5w -> (evq s <> [] \/ cnt s = 0%Z) ->
+  exists s', step current s OStep = Some s'.
+Proof.
+  intros R Q P C. pose proof (no_lost_wakeup s R Q (or_intror P) C) as T.
+  unfold step, ostep. rewrite P, T. cbn [orb]. destruct (cancel_due _); eauto.
+Qed.
+
+(* ------------------------------------------------------------------------------------------------------------
+   (iv) when cqueue::scope / select! returns or unwinds, nobody is inside the cqueue any more *)
+Theorem scope_left_all_gone s : Reach current s -> oleft s = true ->
+  all_gone s /\ evq s = [] /\
+  (forall a, a < nexta s -> dpush s a = 1 /\ dpop s a = 1 /\ bots s a = sent s a) /\
+  (forall e, e < nexte s -> epush s e = 1 /\ epop s e = 1).
+Proof.
+  intros R L. pose proof (inv_reach _ R) as I. rewrite (X_left _ I) in L.
+  assert (G : goneset (opc s) = true) by (destruct (opc s); try discriminate; reflexivity).
+  destruct (M_gone _ I G) as (QA & QE & QQ).
+  split; [split|].
+  - intros a La. destruct (QA a La) as [X _]. rewrite (A_jst _ I), X. reflexivity.
+  - intros e Le. apply (QE e Le).
+  - split; [exact QQ|]. split.
+    + intros a La. destruct (QA a La) as [X Y]. destruct (A_dp _ I a) as [P _]. rewrite X in P.
+      pose proof (A_ctr _ I a) as C. rewrite X in C. cbn [ctr] in C. repeat split; auto; lia.
+    + intros e Le. destruct (QE e Le) as [X Y]. split; [|exact Y]. destruct (E_cnt _ I e) as [_ P]. rewrite X in P. exact P.
+Qed.
+(* the owner leaves only through the end of Drop for Cqueue *)
+Theorem left_iff_exit s : Reach current s -> oleft s = true <-> opc s = OExit.
+Proof. intros R. rewrite (X_left _ (inv_reach _ R)). destruct (opc s); cbn; split; intros; try discriminate; reflexivity. Qed.
+
+(* the token handed out by a poll (hence by select!) belongs to an arm whose top half and bottom half have both run *)
+Theorem returned_token_fully_run s : Reach current s -> returns_ok s -> 1 <= tops s (ocur s) /\ 1 <= bots s (ocur s).
+Proof. intros R O. destruct (poll_ok_bottom_has_run s R O) as (_ & _ & _ & A & B & C & _). lia. Qed.
+
+(* an arm's panic is re-raised in the poller at most once per cqueue ... *)
+Theorem panic_reraised_at_most_once s : Reach current s -> rer s <= 1 /\ (rer s = 1 <-> ispan s = true).
+Proof. intros R. destruct (P_rer _ (inv_reach _ R)) as (A & _ & _). destruct (ispan s); split; try lia; split; intros; try discriminate; try lia; reflexivity. Qed.
+(* ... what is re-raised is the payload of an arm that panicked ... *)
+Theorem reraised_payload_is_an_arms s : Reach current s -> forall p, rerp s = Some p -> exists a, ares s a = RPanic p.
+Proof. intros R. apply (P_rer _ (inv_reach _ R)). Qed.
+(* ... and it is not lost: once the Done event of an arm that panicked has been consumed and check_panic is through, a
+   panic has been re-raised (this one, or an earlier one: the latch is_panicking); in particular at scope exit *)
+Theorem panic_not_lost s : Reach current s -> forall a p, dpop s a = 1 -> ares s a = RPanic p ->
+  (cpcs (opc s) = true /\ ocur s = a) \/ rer s = 1.
+Proof.
+  intros R a p D A. pose proof (inv_reach _ R) as I. destruct (P_pan _ I a p D A) as [X|X]; [left; exact X | right].
+  destruct (P_rer _ I) as (Q & _ & _). rewrite X in Q. exact Q.
+Qed.
+Theorem scope_left_panic_reraised s : Reach current s -> oleft s = true -> forall a p, a < nexta s -> ares s a = RPanic p ->
+  rer s = 1 /\ exists q, rerp s = Some q.
+Proof.
+  intros R L a p La A. pose proof (inv_reach _ R) as I. destruct (scope_left_all_gone s R L) as (_ & _ & QA & _).
+  destruct (QA a La) as (_ & D & _). destruct (panic_not_lost s R a p D A) as [[X _]|X].
+  - apply (left_iff_exit s R) in L. rewrite L in X. discriminate.
+  - split; [exact X|]. destruct (P_rer _ I) as (Q1 & Q2 & _). destruct (ispan s); [|lia].
+    destruct (rerp s) as [q|]; [eauto | exfalso; apply (proj1 Q2 eq_refl); reflexivity].
+Qed.
+
+(* ------------------------------------------------------------------------------------------------------------
+   supporting facts that the repairs F9 / F28 / F29 / F19 are about *)
+(* the code never reaches `.expect("join handler not set")` nor resumes a coroutine that is not suspended *)
+Theorem no_bug s : Reach current s -> opc s <> OBug.
+Proof. intros R. apply (N_bug _ (inv_reach _ R)). Qed.
+(* the final drain and the join inside check_panic run with the cancel disabled: a cancelled owner blocks instead of spinning *)
+Theorem drain_and_join_not_cancellable s : Reach current s -> oco s = true ->
+  ((ofin s <> 0 /\ inpoll (opc s) = true) \/ opc s = CJ) -> cancel_due s = false.
+Proof.
+  intros R C H. pose proof (O_dis _ (inv_reach _ R)) as D. rewrite C in D. unfold cancel_due. rewrite C.
+  destruct H as [[F P]|P].
+  - assert (X : drainset (opc s) = true) by (unfold drainset; rewrite P; reflexivity). rewrite X in D.
+    destruct (ofin s); [congruence|]. cbn in D. destruct (odis s); [lia|]. destruct (ocbit s); reflexivity.
+  - rewrite P in D. cbn in D. destruct (odis s); [lia|]. destruct (ocbit s); reflexivity.
+Qed.
+(* a select coroutine that has ended has no kernel half in flight: nobody touches its EventSender or, through it, the cqueue *)
+Theorem done_arm_has_no_kernel_half s : Reach current s -> forall e, e < nexte s -> pc s (earm s e) = ADone -> kpc s e = KDone /\ epop s e = 1.
+Proof.
+  intros R e L P. pose proof (inv_reach _ R) as I.
+  assert (P1 : epop s e = 1).
+  { destruct (E_cnt _ I e) as [C1 C2]. destruct (epop s e) as [|[|?]] eqn:EP; [exfalso | reflexivity | destruct (kpost (kpc s e)); lia].
+    destruct (E_pop0 _ I e L EP) as [X _]. rewrite P in X. discriminate. }
+  split; [|exact P1]. destruct (E_cnt _ I e) as [C1 C2]. rewrite P1 in C1.
+  assert (K0' : kern s (earm s e) = 0) by (apply (A_k0 _ I); rewrite P; reflexivity).
+  destruct (kpc s e) eqn:EK; cbn [kpost] in C2; try lia; try reflexivity.
+  all: pose proof (kact_kern_pos s e I) as X; rewrite EK in X; specialize (X eq_refl); lia.
+Qed.
+(* a Done event that has been consumed: its arm has ended, or the owner is joining it right now *)
+Theorem consumed_done_is_joined s : Reach current s -> forall a, dpop s a = 1 -> arm_done s a \/ ((opc s = C0 \/ opc s = CJ) /\ ocur s = a).
+Proof.
+  intros R a D. destruct (D_join _ (inv_reach _ R) a D) as [X|[X Y]]; [left; exact X | right]. split; [|exact Y].
+  destruct (opc s); try discriminate; auto.
+Qed.
